@@ -178,11 +178,18 @@ def run_hashseed(spec, tier, seed):
         res.evaluations += 1
         table[f'random:{k}'] = h([canon(out, tv), attempt_seq(tv)], 16)
     for year in (2021, 2022, 2023):
-        for fam in ('F0', 'F2', 'F8', 'F5'):
+        for fam in ('F0', 'F2', 'F8', 'F5', 'F10', 'F3'):
             for p in scen.personas(seed, year, fam, spec['n']):
                 out, tv, _ = realwork.traced(p)
                 res.evaluations += 1
                 table[f'real:{year}:{fam}:{p.key}'] = h([canon(out, tv), attempt_seq(tv)], 16)
+        # a Schedule 1 with several "other income" items described in words (a mortgage interest refund and a described item)
+        for k in range(spec['n']):
+            p = scen.plain_persona(year, 'S', 70000.0 + k, key=f'hs-oi:{k}', n_1098=1, f1098=[{'box_1': 5000.0, 'box_6': 0.0, 'box_4': 120.0 + k, 'box_5': 0.0}], s1_income=True)
+            p.need_other_income = True
+            out, tv, _ = realwork.traced(p)
+            res.evaluations += 1
+            table[f'real:{year}:other-income:{k}'] = h([canon(out, tv), attempt_seq(tv)], 16)
     res.extra['hashseed_tables'] = {str(spec['hashseed']): table}
     res.count('hashseed_cases', len(table))
     res.sample({'PYTHONHASHSEED': spec['hashseed'], 'flags_hash_randomization': sys.flags.hash_randomization, 'cases': len(table)})
